@@ -810,6 +810,28 @@ func judgeLadders(res *evid.Result, all []Rec, thorough bool, interrupted map[st
 				worst, worstMetric = top, metric
 			}
 		}
+		// CPU time of the measured call, for blow-ups that allocate nothing (a traversal that
+		// revisits shared nodes): decided between the two largest members of the ladder, and
+		// only when the larger one burnt at least two CPU seconds and eight times the smaller
+		// one (floored at 5 ms) - orders of magnitude beyond what scheduling or cache effects
+		// do to CPU time; below that nothing is concluded from CPU time.
+		if len(g) >= 2 && ff.expect != "exp-known" {
+			a, b := g[len(g)-2], g[len(g)-1]
+			sa, sb := float64(a.Instrs), float64(b.Instrs)
+			if ff.sizeByParam {
+				sa, sb = float64(a.Param), float64(b.Param)
+			}
+			ca, cb := math.Max(float64(a.CPUus), 5000), float64(b.CPUus)
+			res.Eval(1)
+			ladders[ff.name+"|cpu_us"] = fmt.Sprintf("%d:%d | %d:%d", a.Param, a.CPUus, b.Param, b.CPUus)
+			if cb >= 2e6 && cb >= 8*ca && sb > sa && sa > 0 {
+				if ex := math.Log(cb/ca) / math.Log(sb/sa); ex > growthLimit {
+					res.Violate("growth/super-polynomial-cpu/"+ff.name, fmt.Sprintf("fingerprinting family %s: the member with parameter %d (%0.f SSA instructions) costs %.2f s of CPU, the one with parameter %d (%.0f instructions) %.3f s: exponent %.1f (> %.1f) while allocations stay flat (%d vs %d)",
+						ff.name, b.Param, sb, cb/1e6, a.Param, sa, float64(a.CPUus)/1e6, ex, growthLimit, b.Mallocs, a.Mallocs),
+						replayOf(ff.name, map[string]any{"larger": b, "smaller": a, "generator": "fpFamilies()[" + ff.name + "].gen(\"L_<param>\", param)"}))
+				}
+			}
+		}
 		if math.IsNaN(worst) || worst <= growthLimit {
 			continue
 		}
